@@ -631,6 +631,57 @@ def _check_per_dataset(ctx, ev, call):
                else None)
 
 
+def _check_flags_from_correction(ctx, ev, meth):
+    '''What evaluate stores as the flags of the result comes from the
+    correction function on EVERY path: a short cut that fills the flags with
+    a constant when the underlying test passes skips the definition (the
+    underlying test may run at another level than the correction).'''
+    n = 0
+    for ret in _returns(ev):
+        if not isinstance(ret.value, ast.Call):
+            continue
+        names_ = set()
+        for arg in ret.value.args[2:] + [k.value for k in
+                                         ret.value.keywords]:
+            names_ |= {x.id for x in ast.walk(arg) if isinstance(x, ast.Name)}
+        for name in sorted(names_):
+            defs = [x for x in walk_local(ev.node)
+                    if isinstance(x, ast.Assign) and any(
+                        isinstance(t, ast.Name) and t.id == name or
+                        isinstance(t, ast.Tuple) and any(
+                            isinstance(e, ast.Name) and e.id == name
+                            for e in t.elts) for t in x.targets)]
+            for node in defs:
+                n += 1
+                uses = any(isinstance(c.func, ast.Attribute) and
+                           c.func.attr == meth.name
+                           for c in calls_in(node.value))
+                via = any(isinstance(x, ast.Name) and x.id in names_
+                          and x.id != name for x in ast.walk(node.value))
+                # empty container filled with results of the correction
+                if isinstance(node.value, (ast.List, ast.Tuple)) and \
+                        not node.value.elts or (
+                            isinstance(node.value, ast.Call) and
+                            call_name(node.value) in ('list', 'deque') and
+                            not node.value.args):
+                    via = any(
+                        call_name(c) in ('append', 'extend') and
+                        dotted(receiver(c)) == name and any(
+                            isinstance(k.func, ast.Attribute) and
+                            k.func.attr == meth.name
+                            for a in c.args for k in calls_in(a))
+                        for c in calls_in(ev.node))
+                ctx.decide('FLAGS-SRC', ev,
+                           f'{ev.cls.name if ev.cls else ""}.evaluate: '
+                           f'{txt(node)[:60]}',
+                           True if uses or via else False,
+                           at=ev.where(node),
+                           detail=None if uses or via else
+                           f'the flags handed to the result do not come '
+                           f'from {meth.name} on this path')
+    return n
+
+
 def check_bonferroni(ctx):
     program = ctx.program
     sites = _correction_functions(program)
@@ -638,6 +689,7 @@ def check_bonferroni(ctx):
               'from evaluate in bonferroni.py')
     for klass, ev, meth, call in sites:
         _check_per_dataset(ctx, ev, call)
+        _check_flags_from_correction(ctx, ev, meth)
         params = [p for p in meth.params if p != 'self']
         pname, lname = params[0], params[1]
         pder = V.derived_names(meth.node, {pname})
